@@ -90,7 +90,7 @@ pub fn build_spec(property: &str, tier: &str, seed: u64) -> Option<Spec> {
             ];
             Some(Spec {
                 property: "C06", level: "exploration", phases,
-                rule: "history-search: seeded operation histories (1-24 operations, one in ten up to the tier's maximum) over a per-run key universe of 1-3 keys (dense duplicates) or 24-48 keys (several growth/rehash cycles of the raw table; inline, heap-spilled, empty, non-ASCII and shared-prefix keys), up to three registers, per-run operation weights with a random subset of the 26 operations disabled (among them extend from a source iterator that panics after k items, from_parse, whose objects also get the eight mapped key queries checked, and clone_from); profiles: huge key universes (1/40), grow-then-drain (1/400), large objects of 1000-2600 entries (3/400), boundary-code-point keys (1/5 of the universes), a cancellation point (pull n, then drop / exhaust / unwind) on every lazily-mutating removal iterator, and a simulator-chosen hash behaviour (good, constant, 2/4/8 distinct hashes, constant control tag, constant start slot). After every operation: result vs list model, entries of every register, all ten key queries per universe key, index-dump invariants. small-universe-exhaustive (supplementary): every history up to the length bound over a 21-operation menu on keys {a,b}. A case is one explicit history; distinct = distinct digest of the operation list with arguments and hash configuration; non-trivial = the history contains a cancellation that left work to Drop (untouched / partial / unwound) or a growth of the raw table after positions had been shifted.".into(),
+                rule: "history-search: seeded operation histories (1-24 operations, one in ten up to the tier's maximum) over a per-run key universe of 1-3 keys (dense duplicates) or 24-48 keys (several growth/rehash cycles of the raw table; inline, heap-spilled, empty, non-ASCII and shared-prefix keys), up to three registers, per-run operation weights with a random subset of the 27 operations disabled (among them extend from a source iterator that panics after k items, get_or_insert_with with a panicking default closure, from_parse, whose objects also get the eight mapped key queries checked, and clone_from); profiles: huge key universes (1/40), grow-then-drain (1/400), large objects of 1000-2600 entries (3/400), boundary-code-point keys (1/5 of the universes), a cancellation point (pull n, then drop / exhaust / unwind) on every lazily-mutating removal iterator, and a simulator-chosen hash behaviour (good, constant, 2/4/8 distinct hashes, constant control tag, constant start slot). After every operation: result vs list model, entries of every register, all ten key queries per universe key, index-dump invariants. small-universe-exhaustive (supplementary): every history up to the length bound over a 21-operation menu on keys {a,b}. A case is one explicit history; distinct = distinct digest of the operation list with arguments and hash configuration; non-trivial = the history contains a cancellation that left work to Drop (untouched / partial / unwound) or a growth of the raw table after positions had been shifted.".into(),
                 assumptions: vec![
                     "the list model (sim/src/object/model.rs) pins only behaviour stated in the rustdoc or in the property's anchors: in-place replacement at the first occurrence, completion in Drop, removal order by position".into(),
                     "mem::forget of a mutating iterator is not injected (leaking is not among the listed operations)".into(),
